@@ -335,6 +335,8 @@ def main(ctx):
                  ("slice", None, None, None), ("slice", 1, 3, None), ("slice", 0, None, 2), ("slice", -2, None, None)):
         for csel in (None, ("scalar", "x"), ("list", ("s", "a")), ("scalar", "h")):
             SEL.append((rsel, csel))
+    # selections that must be REJECTED: after the error the handle has to serve the next read correctly
+    SEL += [(("scalar", 7), None), (None, ("scalar", "zz")), (("list", (1, 9)), ("scalar", "a")), (("scalar", -9), ("list", ("s", "a")))]
     SEL = tuple(SEL)
 
     def execute_for(delim):
@@ -345,12 +347,19 @@ def main(ctx):
             results = []
             with sfile.SFile(fn) as sf:
                 for (rsel, csel) in hist:
+                    rejected = expected(Tab, rsel, csel, None)[0] == "reject"
                     try:
                         results.append(run_style("SF[]", fn, sf, build_rows(rsel), build_cols(csel)))
+                        if rejected:
+                            rec.fail(hist, "out-of-range/unknown selection %r was accepted" % ((rsel, csel),))
+                            return None
                     except Exception as e:
+                        if rejected:
+                            results.append(None)
+                            continue
                         rec.fail(hist, "read %r raised %s: %s" % ((rsel, csel), type(e).__name__, e))
                         return None
-                if hist:
+                if hist and results[-1] is not None:
                     rsel, csel = hist[-1]
                     exp = expected(Tab, rsel, csel, None)
                     m = compare(results[-1], exp[1])
@@ -359,6 +368,8 @@ def main(ctx):
                                  % (hist[-1], hist[:-1], m, results[-1], exp[1]))
                         return None
                     for (r2, c2), got in zip(hist[:-1], results[:-1]):
+                        if got is None:
+                            continue
                         e2 = expected(Tab, r2, c2, None)
                         if compare(got, e2[1]):
                             rec.fail(hist, "an earlier result (%r) changed after later reads" % ((r2, c2),))
